@@ -116,7 +116,14 @@ where
             cnt += 1;
         }
     }
-    json!({"logp_ft": f(p.logp(&from, &to)), "logp_tf": f(p.logp(&to, &from)),
+    // the standard-normal draws the three `a.sample(&from)` calls consume, replayed from the same seeded generator
+    let normals: Vec<u64> = {
+        use rand::SeedableRng;
+        use rand_distr::Distribution;
+        let mut r = rand::rngs::SmallRng::seed_from_u64(seed);
+        (0..3 * (from.len() + 1)).map(|_| { let z: T = rand_distr::StandardNormal.sample(&mut r); f(z) }).collect()
+    };
+    json!({"normals": normals, "logp_ft": f(p.logp(&from, &to)), "logp_tf": f(p.logp(&to, &from)),
            "unnorm": f(<IsotropicGaussian<T> as Target<T, T>>::unnorm_logp(&p, &to)),
            "draws_a": da, "draws_b": db, "z_mean": s1 / cnt as f64, "z_msq": s2 / cnt as f64, "z_n": cnt})
 }
